@@ -10,6 +10,7 @@ import (
 	"runtime/debug"
 	"strings"
 	"sync"
+	"sync/atomic"
 	"time"
 
 	"github.com/gopher-fleece/gleece/v2/cmd"
@@ -345,9 +346,19 @@ var selfExe = func() string {
 }()
 
 // RunJob executes the job in a fresh worker subprocess and returns its result.
+var jobSeq atomic.Int64
+
 func RunJob(job Job) *Result {
-	jobPath := filepath.Join(job.Dir, ".verif-job.json")
-	resPath := filepath.Join(job.Dir, ".verif-result.json")
+	// several jobs may run concurrently in one project directory (C19 shards its histories): every job gets files of its own
+	tag := fmt.Sprintf("%d-%d", os.Getpid(), jobSeq.Add(1))
+	jobPath := filepath.Join(job.Dir, ".verif-job-"+tag+".json")
+	resPath := filepath.Join(job.Dir, ".verif-result-"+tag+".json")
+	logPath := filepath.Join(job.Dir, ".verif-worker-"+tag+".log")
+	defer func() {
+		os.Remove(jobPath)
+		os.Remove(resPath)
+		os.Remove(logPath)
+	}()
 	b, _ := json.Marshal(job)
 	if err := os.WriteFile(jobPath, b, 0o644); err != nil {
 		core.Harness("cannot write job: %v", err)
@@ -360,7 +371,7 @@ func RunJob(job Job) *Result {
 	c := exec.Command(selfExe, "worker", jobPath, resPath)
 	c.Dir = job.Dir
 	c.Env = append(os.Environ(), "GOFLAGS=-mod=mod", "GOPROXY=off")
-	logf, _ := os.Create(filepath.Join(job.Dir, ".verif-worker.log"))
+	logf, _ := os.Create(logPath)
 	c.Stdout, c.Stderr = logf, logf
 	done := make(chan error, 1)
 	if err := c.Start(); err != nil {
@@ -379,7 +390,7 @@ func RunJob(job Job) *Result {
 	logf.Close()
 	rb, rerr := os.ReadFile(resPath)
 	if rerr != nil {
-		logb, _ := os.ReadFile(filepath.Join(job.Dir, ".verif-worker.log"))
+		logb, _ := os.ReadFile(logPath)
 		tail := string(logb)
 		if len(tail) > 3000 {
 			tail = tail[len(tail)-3000:]
